@@ -17,9 +17,10 @@ SEP = 0x7C
 class PL(object):
     """A pool LRU: a list of stems (each a byte string ending in '|')."""
 
-    def __init__(self, stems, name=None):
+    def __init__(self, stems, name=None, kinds=None):
         self.stems = list(stems)
         self.name = name
+        self.kinds = list(kinds) if kinds is not None else None
         lru = stems[0]
         for s in stems[1:]:
             lru = lru + s
@@ -30,13 +31,13 @@ class PL(object):
 
     def prefix(self, k):
         """PL made of the first k stems (1 <= k <= len)"""
-        return PL(self.stems[:k], "%s[:%d]" % (self.name, k))
+        return PL(self.stems[:k], "%s[:%d]" % (self.name, k), self.kinds[:k] if self.kinds else None)
 
     def prefixes(self):
         return [self.prefix(k) for k in range(1, len(self.stems) + 1)]
 
     def extend(self, stem, name=None):
-        return PL(self.stems + [stem], name or "%s+" % self.name)
+        return PL(self.stems + [stem], name or "%s+" % self.name, (self.kinds + ["?"]) if self.kinds else None)
 
 
 def same(a, b):
@@ -126,18 +127,101 @@ def typed_lru(E, name, scheme=None, port=False, hosts=1, paths=0, L=1, www=False
     `hosts` host stems with symbolic payload, optional trailing concrete h:www,
     `paths` path stems with symbolic payload."""
     stems = []
+    kinds = []
     if scheme is None:
         scheme = b"http" if E.choose(name + ".scheme", 2) == 0 else b"https"
     stems.append(E.const(b"s:" + scheme + b"|"))
+    kinds.append("s")
     if port:
         stems.append(E.const(b"t:80|"))
+        kinds.append("t")
     for h in range(hosts):
         stems.append(E.const(b"h:") + E.bytes("%s.h%d" % (name, h), L, exclude=host_excl) + E.const(b"|"))
+        kinds.append("h")
     if www:
         stems.append(E.const(b"h:www|"))
+        kinds.append("h")
     for q in range(paths):
         stems.append(E.const(b"p:") + E.bytes("%s.p%d" % (name, q), L) + E.const(b"|"))
-    return PL(stems, name)
+        kinds.append("p")
+    return PL(stems, name, kinds)
+
+
+def typed_pool(E, specs, L=1, scheme=b"http", tag="t"):
+    """specs: list of dicts(hosts=, paths=, port=, www=, scheme=)"""
+    pool = []
+    for i, sp in enumerate(specs):
+        pool.append(typed_lru(E, "%s%d" % (tag, i), scheme=sp.get("scheme", scheme), port=sp.get("port", False),
+                              hosts=sp.get("hosts", 2), paths=sp.get("paths", 0), L=L, www=sp.get("www", False)))
+    distinct(E, pool)
+    return pool
+
+
+def rule_prefix(pl, rule):
+    """Structural model of Hyphe's rule family on a typed LRU: the prefix the rule
+    proposes (a PL) or None.  Independent of any regex engine.  Valid because host
+    payloads are kept off the localhost / IPv4 / IPv6 arms of the patterns and
+    payloads are too short (<= 2 bytes) to contain a second 's:x|' start."""
+    if rule in (None, "never"):
+        return None
+    kinds = pl.kinds
+    if not kinds or kinds[0] != "s":
+        return None
+    i = 1
+    if i < len(kinds) and kinds[i] == "t":
+        i += 1
+    nh = 0
+    while i + nh < len(kinds) and kinds[i + nh] == "h":
+        nh += 1
+    if nh < 2:
+        return None
+    if rule == "domain":
+        return pl.prefix(i + 2)
+    if rule == "subdomain":
+        return pl.prefix(i + nh)
+    if rule.startswith("path"):
+        n = int(rule[4:])
+        j = i + nh
+        k = 0
+        while j + k < len(kinds) and kinds[j + k] == "p":
+            k += 1
+        if k < n:
+            return None
+        return pl.prefix(j + n)
+    raise ValueError(rule)
+
+
+def variations(E, pl):
+    """Structural spec of the scheme/www variation class of a typed prefix (list of PL, the prefix first)."""
+    kinds = pl.kinds
+    www = E.const(b"h:www|")
+    out = [pl]
+    alt = None
+    if kinds and kinds[0] == "s":
+        s0 = pl.stems[0]
+        if same(s0, b"s:http|"):
+            alt = E.const(b"s:https|")
+        elif same(s0, b"s:https|"):
+            alt = E.const(b"s:http|")
+    if alt is not None:
+        out.append(PL([alt] + pl.stems[1:], pl.name + "~s", kinds))
+    hidx = [i for i, k in enumerate(kinds or []) if k == "h"]
+    if len(hidx) >= 2:
+        last = hidx[-1]
+        if same(pl.stems[last], www):
+            if len(hidx) - 1 >= 2:
+                st = pl.stems[:last] + pl.stems[last + 1:]
+                kd = kinds[:last] + kinds[last + 1:]
+            else:
+                st = None
+        else:
+            st = pl.stems[:last + 1] + [www] + pl.stems[last + 1:]
+            kd = kinds[:last + 1] + ["h"] + kinds[last + 1:]
+        if st is not None:
+            out.append(PL(st, pl.name + "~w", kd))
+            if alt is not None:
+                out.append(PL([alt] + st[1:], pl.name + "~sw", kd))
+    return out
 
 
 class Assoc(object):
@@ -203,6 +287,7 @@ class Ref(object):
         self.default_rule = None
         self.last_id = 0
         self.issued = []
+        self.created = []          # automatic creations (weid, [PL]) of the current request
 
     # -- writes -------------------------------------------------------------------
     def name(self, pl):
@@ -219,6 +304,40 @@ class Ref(object):
         if crawled:
             self.pages.v[i][1] = True
         return False
+
+    def insert(self, E, pl, crawled=False):
+        """Model of one page insertion including automatic webentity creation.
+        -> True iff the page is new; creations are appended to self.created as (weid, [PL...])"""
+        new = self.add_page(pl, crawled)
+        if self.default_rule is None and len(self.rules) == 0:
+            return new
+        w, e = self.resolve(pl)
+        elen = len(e.stems) if e is not None else 0
+        K = None
+        for anchor, rule in self.rules.items():
+            a = self.known.get(anchor)
+            if a is not None and is_stem_prefix(a, pl):
+                cand = rule_prefix(pl, rule)
+                if cand is not None and (K is None or len(cand.stems) > len(K.stems)):
+                    K = cand
+        if e is not None and (0 if K is None else len(K.stems)) <= elen:
+            return new
+        if K is None:
+            K = rule_prefix(pl, self.default_rule)
+            if K is None:
+                return new
+        vs = variations(E, K)
+        valid = []
+        for v in vs:
+            self.name(v)
+            if not self.prefixes.has(v.lru):
+                valid.append(v)
+        if valid:
+            weid = self.new_id()
+            for v in valid:
+                self.prefixes.set(v.lru, weid)
+            self.created.append((weid, valid))
+        return new
 
     def add_link(self, s, t):
         self.nlinks += 1
